@@ -91,12 +91,68 @@ def extract(repo: Path) -> dict:
         if name not in ("_oxidative_phosphorylation", "execute_tool_call") and _contains_execute(f):
             facts["execute_sites"].append(name)
     facts["helpers"] = sorted(helpers)
+    facts["perm_table"] = evaluate_table(repo)
     return facts
+
+
+def evaluate_table(repo: Path):
+    """Evaluate the REAL ceiling test on a complete finite domain: every ceiling (None or a subset of a 3-capability
+    universe) x every declaration style (required_capabilities / capabilities each absent or a subset), through the
+    public entry point execute_tool_call with a counting tool body.  -> list of rows (allowed, req, caps, ran) or None
+    when the code cannot be evaluated (fail closed)."""
+    import itertools
+    import sys
+    import warnings
+    warnings.filterwarnings("ignore")
+    root = str(repo)
+    if root not in sys.path:
+        sys.path.insert(0, root)
+    try:
+        from operon_ai.organelles.mitochondria import Mitochondria
+        from operon_ai.core.types import Capability
+        from operon_ai.providers import ToolCall
+        import operon_ai
+        if not str(Path(operon_ai.__file__).resolve()).startswith(root):
+            return None
+        C = list(Capability)[:3]
+        subsets = [None] + [list(c) for k in range(4) for c in itertools.combinations(range(3), k)]
+        rows = []
+        for al in subsets:
+            for req in subsets:
+                for caps in subsets:
+                    ran = []
+
+                    class T:
+                        name = "t"
+                        description = "t"
+                        parameters_schema = {"type": "object", "properties": {}}
+
+                        def execute(self, *a, **k):
+                            ran.append(1)
+                            return 1
+                    t = T()
+                    if req is not None:
+                        t.required_capabilities = {C[i] for i in req}
+                    if caps is not None:
+                        t.capabilities = {C[i] for i in caps}
+                    m = Mitochondria(allowed_capabilities=None if al is None else {C[i] for i in al}, silent=True)
+                    m.engulf_tool(t)
+                    m.execute_tool_call(ToolCall(id="c", name="t", arguments={}))
+                    rows.append((al, req, caps, bool(ran)))
+        return rows
+    except Exception:
+        return None
 
 
 def render(facts: dict) -> str:
     b = lambda x: "true" if x else "false"
     sites = ", ".join(f'"{s}"' for s in facts["execute_sites"])
+
+    def ol(x):
+        return "none" if x is None else "(some [" + ", ".join(str(i) for i in x) + "])"
+    rows = facts.get("perm_table")
+    table = "none" if rows is None else "some [\n  " + ",\n  ".join(
+        f"({ol(a)}, {ol(r)}, {ol(c)}, {b(ok)})" for (a, r, c, ok) in rows) + "]"
     return f"""/- GENERATED by harness/vf/extract/e1_caps.py from operon_ai/organelles/mitochondria.py — do not edit. -/
 import Operon.Model.MitoTools
 namespace Operon.Gen.MitoCaps
@@ -107,6 +163,11 @@ def guards : Guards := ⟨{b(facts['oxidative'])}, {b(facts['toolCall'])}⟩
 
 /-- other methods of `Mitochondria` that call `.execute(...)` (must be empty: they are not in the model) -/
 def otherExecuteSites : List String := [{sites}]
+
+/-- the REAL ceiling test evaluated through `execute_tool_call` on every (ceiling, required_capabilities, capabilities)
+    over a 3-capability universe (each `none` = absent / unrestricted, or a subset): did the tool body run?
+    `none` = the code could not be evaluated. -/
+def permTable : Option (List (Option (List Cap) × Option (List Cap) × Option (List Cap) × Bool)) := {table}
 
 end Operon.Gen.MitoCaps
 """
